@@ -85,7 +85,7 @@ def tag_link(link, kind, l0, f0, axis=None, origin=None):
     return link
 
 
-def rotation_scenario(rng: random.Random, force=(None, None)):
+def rotation_scenario(rng: random.Random, force=(None, None), own_arrays=False):
     """2x2x2 lofts; the four edge-middle points of the bottom face are turned about the vertical axis through the face centre;
     one of them carries a RadialClamp, the opposite one (and sometimes the other two) follow through RotationLinks"""
     import classy_blocks as cb
@@ -125,8 +125,16 @@ def rotation_scenario(rng: random.Random, force=(None, None)):
         return (abs(vdot(rel, k)) < 1e-6 * scale and abs(vnorm(rel) - radius) < 1e-6 * scale, bound is None or arc <= bound * (1 + 1e-6) + 1e-9 * scale)
     preds = [on_circle]
     links = []
+    # the points of a link are handed over as plain lists, or as the position arrays of the mesh's own vertices (which the
+    # optimizer moves in place when it copies its result back): the link keeps what it was given, not what becomes of it
+    own = bool(own_arrays)
+
+    def given(p):
+        if not own:
+            return p
+        return min(mesh.vertices, key=lambda v: vdist(list(v.position), p)).position
     for key in ring[1:][: rng.choice([1, 2, 3])]:
-        links.append(tag_link(cb.RotationLink(grid[ring[0]], grid[key], axis, centre), "rotation", grid[ring[0]], grid[key], axis, centre))
+        links.append(tag_link(cb.RotationLink(given(grid[ring[0]]), given(grid[key]), axis, centre), "rotation", list(grid[ring[0]]), list(grid[key]), axis, centre))
     return mesh, clamps, links, preds, scale
 
 
@@ -238,13 +246,13 @@ def sketch_scenario(rng: random.Random, force=None):
     return sketch, clamps, links, preds, scale
 
 
-def run_one(ctx: Ctx, rid: int, rng: random.Random, kind: str, mode: str, full: bool = False, rotation: bool = False, sketch_kind=None):
+def run_one(ctx: Ctx, rid: int, rng: random.Random, kind: str, mode: str, full: bool = False, rotation: bool = False, sketch_kind=None, again: bool = False):
     import numpy as np
     import classy_blocks as cb
     from classy_blocks.optimize import optimizer as optmod
 
     if kind == "mesh":
-        obj, clamps, links, preds, scale = rotation_scenario(rng, rotation if isinstance(rotation, tuple) else (None, None)) if rotation else mesh_scenario(rng, full)
+        obj, clamps, links, preds, scale = rotation_scenario(rng, rotation if isinstance(rotation, tuple) else (None, None), own_arrays=again) if rotation else mesh_scenario(rng, full)
         opt = cb.MeshOptimizer(obj, report=False)
     else:
         obj, clamps, links, preds, scale = sketch_scenario(rng, sketch_kind)
@@ -328,47 +336,58 @@ def run_one(ctx: Ctx, rid: int, rng: random.Random, kind: str, mode: str, full: 
 
     class FakeScipy:
         optimize = patched
-    optmod.scipy = FakeScipy
-    method = rng.choice(["SLSQP", "L-BFGS-B", "Nelder-Mead", "Powell"])
-    err = None
-    import contextlib
-    import io
-    max_iter, tolerance = rng.randint(1, 4), rng.choice([1e-3, 0.05, 0.3])
-    driver = None
-    try:
-        with contextlib.redirect_stdout(io.StringIO()):
-            driver = opt.optimize(max_iterations=max_iter, tolerance=tolerance, method=method)
-    except Exception as e:  # pylint: disable=broad-except
-        err = e
-    finally:
-        optmod.scipy = saved_scipy
-    ctx.evaluated(f"{kind}:{mode}:{method}:{len(clamps)}:{len(links)}")
-    if err is not None:
-        ctx.violation(f"optimize-raises:{kind}:{mode}:{type(err).__name__}", f"optimize() raised {type(err).__name__}: {err}", {"kind": kind, "mode": mode})
-        return None
-    q_final = float(grid.quality)
-    movable = clamped | followers
-    if kind == "mesh":
-        final_obj = np.array([v.position for v in obj.vertices])
-    else:
-        final_obj = np.array(obj.positions)
-    # (a sketch: every face holds the points its quad refers to)
-    faces_hold = kind == "mesh" or all(float(np.max(np.abs(np.array(face.point_array) - np.array(grid.points)[list(quad)]))) <= 1e-12 * scale
-                                       for face, quad in zip(obj.faces, obj.indexes))
-    # the iteration driver's record, in units of 1e-9 of the quality before the first iteration
-    unit = 1e-9 * max(q_initial, 1e-300)
-    its = [[int(round(min(it.initial_quality / unit, 2e9))), int(round(min(it.final_quality / unit, 2e9)))] for it in driver.iterations] if driver is not None else []
-    rec = {
-        "id": rid, "kind": kind, "mode": mode, "method": method, "steps": steps,
-        "iters": its, "max_iter": max_iter, "tol": int(round(tolerance * 1e9)),
-        "final_worse": bool(q_final > q_initial + 1e-5 * max(1.0, abs(q_initial))),
-        "unclamped_still": bool(all(np.array_equal(final_obj[i], initial[i]) for i in range(len(initial)) if i not in movable)),
-        "backport_equal": bool(np.max(np.abs(final_obj - np.array(grid.points))) <= 1e-12 * scale) and faces_hold,
-        "followers_linked": bool(all(s["followers_linked"] for s in steps) if steps else True),
-        "on_manifold": bool(all(pred_of[id(c)](list(c.position), list(np.atleast_1d(c.params)))[0] for c in clamps)),
-        "in_bounds": bool(all(pred_of[id(c)](list(c.position), list(np.atleast_1d(c.params)))[1] for c in clamps)),
-    }
-    return rec
+    first = None
+    for rid_now in ([rid, rid + 1] if again else [rid]):
+        # (a second optimize() with the same optimizer, clamps and links starts from where the first one ended and is judged
+        #  like the first: never worse than ITS start, followers linked at every step, copied back)
+        del steps[:]
+        initial = np.array(grid.points, copy=True)
+        q_initial = float(grid.quality)
+        method = rng.choice(["SLSQP", "L-BFGS-B", "Nelder-Mead", "Powell"])
+        err = None
+        import contextlib
+        import io
+        max_iter, tolerance = rng.randint(1, 4), rng.choice([1e-3, 0.05, 0.3])
+        driver = None
+        optmod.scipy = FakeScipy
+        try:
+            with contextlib.redirect_stdout(io.StringIO()):
+                driver = opt.optimize(max_iterations=max_iter, tolerance=tolerance, method=method)
+        except Exception as e:  # pylint: disable=broad-except
+            err = e
+        finally:
+            optmod.scipy = saved_scipy
+        ctx.evaluated(f"{kind}:{mode}:{method}:{len(clamps)}:{len(links)}")
+        if err is not None:
+            ctx.violation(f"optimize-raises:{kind}:{mode}:{type(err).__name__}", f"optimize() raised {type(err).__name__}: {err}", {"kind": kind, "mode": mode})
+            return first
+        q_final = float(grid.quality)
+        movable = clamped | followers
+        if kind == "mesh":
+            final_obj = np.array([v.position for v in obj.vertices])
+        else:
+            final_obj = np.array(obj.positions)
+        # (a sketch: every face holds the points its quad refers to)
+        faces_hold = kind == "mesh" or all(float(np.max(np.abs(np.array(face.point_array) - np.array(grid.points)[list(quad)]))) <= 1e-12 * scale
+                                           for face, quad in zip(obj.faces, obj.indexes))
+        # the iteration driver's record, in units of 1e-9 of the quality before the first iteration
+        unit = 1e-9 * max(q_initial, 1e-300)
+        its = [[int(round(min(it.initial_quality / unit, 2e9))), int(round(min(it.final_quality / unit, 2e9)))] for it in driver.iterations] if driver is not None else []
+        rec = {
+            "id": rid_now, "kind": kind, "mode": mode, "method": method, "steps": list(steps),
+            "iters": its, "max_iter": max_iter, "tol": int(round(tolerance * 1e9)),
+            "final_worse": bool(q_final > q_initial + 1e-5 * max(1.0, abs(q_initial))),
+            "unclamped_still": bool(all(np.array_equal(final_obj[i], initial[i]) for i in range(len(initial)) if i not in movable)),
+            "backport_equal": bool(np.max(np.abs(final_obj - np.array(grid.points))) <= 1e-12 * scale) and faces_hold,
+            "followers_linked": bool(all(s["followers_linked"] for s in steps) if steps else True),
+            "on_manifold": bool(all(pred_of[id(c)](list(c.position), list(np.atleast_1d(c.params)))[0] for c in clamps)),
+            "in_bounds": bool(all(pred_of[id(c)](list(c.position), list(np.atleast_1d(c.params)))[1] for c in clamps)),
+        }
+        if first is None:
+            first = [rec]
+        else:
+            first.append(rec)
+    return first
 
 
 def driver_histories(ctx: Ctx) -> None:
@@ -436,9 +455,10 @@ def run(ctx: Ctx) -> None:
         rotation = {8: (True, True), 16: (True, False)}.get(i, 8 <= i < 16 or i % 5 == 4)
         # (sketch runs: library spline disks, a symmetry link, a plain grid of plane clamps - in turn, so that each meets
         #  the real minimiser and every scripted one)
-        rec = run_one(ctx, len(recs) + 1, rng, kind, mode, full=i < 8, rotation=rotation, sketch_kind=["library", "symmetry", "plain"][(i // 2) % 3])
-        if rec is not None:
-            recs.append(rec)
+        # every fourth run optimizes twice (its rotation links, if any, are then made from the mesh's own vertex arrays)
+        out = run_one(ctx, len(recs) + 1, rng, kind, mode, full=i < 8, rotation=rotation, sketch_kind=["library", "symmetry", "plain"][(i // 2) % 3],
+                      again=i % 4 == 0)
+        recs.extend(out or [])
     if not recs:
         raise MachineryError("no optimizer run could be recorded")
     path = os.path.join(ctx.tmp, "opt.json")
